@@ -68,6 +68,11 @@ func main() {
 			usage()
 		}
 		os.Exit(coordinate(os.Args[2], os.Args[3]))
+	case "driver":
+		if len(os.Args) < 5 {
+			usage()
+		}
+		os.Exit(driverMain(os.Args[2], os.Args[3], os.Args[4]))
 	case "worker":
 		workerMain()
 	case "replay":
